@@ -1084,6 +1084,8 @@ func main() {
 			g.histKV()
 		case "fill":
 			g.histFill()
+		case "bptree": // component check of the in-memory B+ tree (several levels)
+			g.histBPTree()
 		case "conc": // C14: several databases, mixed readers and writers
 			g.histConc(concOpts{ndb: 1 + g.r.Intn(3), ngor: 4 + g.r.Intn(13), ntx: c.Steps})
 		case "concmerge": // C17: a goroutine merges while the others read and write
